@@ -389,6 +389,54 @@ theorem C05_iterate_reverse (d : Db) (id : Nat) (t : TxnM) (o : IterOpts) (seek 
   simp only [ht]
   rw [C05_reverse _ o t.readTs d.now _ seek hs hrev hall hn (by omega)]
 
+/-! ## combined statements -/
+
+/-- **Exactly once**: no user key is yielded twice and the keys are strictly monotone in the
+    direction of iteration. -/
+theorem C05_exactly_once (merged : List Ent) (hs : SortedEnts merged) (readTs since now : Nat)
+    (pfx sk : Bytes) :
+    (specScanFwd merged readTs since now pfx sk).Pairwise (fun a b => cmpBytes a.key b.key = .lt) ∧
+    (specScanRev merged readTs since now sk).Pairwise (fun a b => cmpBytes b.key a.key = .lt) :=
+  ⟨C05_exactly_once_fwd merged hs readTs since now pfx sk, C05_exactly_once_rev merged hs readTs since now sk⟩
+
+/-- **Seek lands** on the first visible key `≥ seek` (forward), `≤ seek` (reverse). -/
+theorem C05_seek_lands (merged : List Ent) (hs : SortedEnts merged) (readTs since now : Nat)
+    (pfx sk : Bytes) (hsk : pfx.isPrefixOf sk = true) :
+    (∀ x, (specScanFwd merged readTs since now pfx sk).head? = some x →
+      cmpBytes x.key sk ≠ .lt ∧
+      ∀ y, newestVisible merged readTs since y.key = some y →
+        deletedOrExpired y.emeta y.exp now = false → cmpBytes y.key sk ≠ .lt →
+        pfx.isPrefixOf y.key = true → cmpBytes x.key y.key ≠ .gt) ∧
+    (∀ x, (specScanRev merged readTs since now sk).head? = some x →
+      (sk.isEmpty = true ∨ cmpBytes x.key sk ≠ .gt) ∧
+      ∀ y, newestVisible merged readTs since y.key = some y →
+        deletedOrExpired y.emeta y.exp now = false → (sk.isEmpty = true ∨ cmpBytes y.key sk ≠ .gt) →
+        cmpBytes y.key x.key ≠ .gt) :=
+  ⟨fun x hx => C05_seek_lands_fwd merged hs readTs since now pfx sk hsk x hx,
+   fun x hx => C05_seek_lands_rev merged hs readTs since now sk x hx⟩
+
+/-! ## the pending overlay (serves C04) -/
+
+/-- A pending write is the newest in-window version of its key in the iterator's merged stream
+    (whenever `readTs` is inside the window), hence — by `C05_sound`/`C05_complete_*` — the
+    iterator of the writing transaction shows the pending value, user meta, expiry or deletion
+    for that key, and nothing else for that key. -/
+theorem C05_pending_overlay (d : Db) (t : TxnM) (p : Ent) (since : Nat)
+    (hsrc : ∀ s ∈ d.lsm.sources, SortedEnts s) (hp : p ∈ pendingSource t)
+    (hw : since = 0 ∨ since < t.readTs) :
+    newestVisible (mergeAll (pendingSource t :: d.lsm.sources)) t.readTs since p.key = some p := by
+  obtain ⟨hmem, hver, hsorted, -, -⟩ := C04_iter_pending_first d t p hsrc hp
+  unfold newestVisible
+  rw [newestLE_sorted_some_iff (hsorted.filter _)]
+  have hwin : inWindow t.readTs since p = true := by
+    simp only [inWindow, Bool.and_eq_true, decide_eq_true_eq, Bool.or_eq_true, beq_iff_eq]
+    rcases hw with h | h
+    · exact ⟨by omega, .inl h⟩
+    · exact ⟨by omega, .inr (by omega)⟩
+  refine ⟨List.mem_filter.mpr ⟨hmem, hwin⟩, rfl, by omega, ?_⟩
+  intro x _ _ hx
+  omega
+
 /-! ## non-vacuity -/
 
 -- a sorted stream with keys that are prefixes of one another, a delete marker, an expired
